@@ -16,6 +16,7 @@ Inductive val := VInt (z : Z) | VNone | VBool (b : bool) | VList (l : list Z) | 
 Definition E_INDEX := 1%nat.
 Definition E_VALUE := 2%nat.
 Definition E_KEY := 3%nat.
+Definition E_ATTR := 4%nat.
 
 Inductive resp := ROk (v : val) | RErr (cls : nat) (arg : option Z) | RProxy (id : nat).
 
@@ -23,16 +24,22 @@ Inductive obj :=
 | OList (l : list Z)
 | ODict (d : list (Z * Z))           (* insertion order, keys unique *)
 | OValue (z : Z)
-| OFactory (made : list nat).        (* ids of the values it has handed out through managed() *)
+| OFactory (made : list nat)         (* ids of the values it has handed out through managed() *)
+| ONs (attrs : list (Z * Z)).        (* a Namespace: attribute number -> value *)
 
 Inductive op :=
 (* list *)
 | LAppend (x : Z) | LExtend (xs : list Z) | LInsert (i x : Z) | LPop | LPopAt (i : Z) | LRemove (x : Z) | LIndex (x : Z)
 | LCount (x : Z) | LLen | LGet (i : Z) | LSet (i x : Z) | LDel (i : Z) | LContains (x : Z) | LReverse | LSort
 | LAdd (xs : list Z) | LMul (k : Z)
+| LIMul (k : Z) | LIAdd (xs : list Z)      (* x *= k, x += xs: in place; the name stays bound to the same object *)
+| LIter                                   (* [e for e in x] *)
 (* dict *)
 | DSet (k v : Z) | DGet (k : Z) | DDel (k : Z) | DPop (k : Z) | DPopD (k d : Z) | DGetD (k d : Z) | DGetN (k : Z) | DLen
 | DContains (k : Z) | DClear | DSetDefault (k d : Z) | DUpdate (kvs : list (Z * Z)) | DPopItem | DCopy
+| DIter | DKeys | DValues | DItems
+(* Namespace *)
+| NSet (k v : Z) | NGet (k : Z) | NDel (k : Z)
 (* Value *)
 | VGet | VSet (z : Z)
 (* custom class *)
@@ -137,6 +144,9 @@ Definition apply_list (l : list Z) (o : op) : option (list Z * resp) :=
   | LSort => Some (sort l, ROk VNone)
   | LAdd xs => Some (l, ROk (VList (l ++ xs)))
   | LMul k => Some (l, ROk (VList (repeat_list l k)))
+  | LIMul k => Some (repeat_list l k, ROk VNone)
+  | LIAdd xs => Some (l ++ xs, ROk VNone)
+  | LIter => Some (l, ROk (VList l))
   | _ => None
   end.
 
@@ -173,6 +183,9 @@ Definition apply_dict (d : list (Z * Z)) (o : op) : option (list (Z * Z) * resp)
       | (k, v) :: r => Some (rev r, ROk (VPairs [(k, v)]))
       end
   | DCopy => Some (d, ROk (VPairs d))
+  | DIter | DKeys => Some (d, ROk (VList (map fst d)))
+  | DValues => Some (d, ROk (VList (map snd d)))
+  | DItems => Some (d, ROk (VPairs d))
   | _ => None
   end.
 
@@ -204,6 +217,13 @@ Definition serve (s : server) (id : nat) (o : op) : server * resp :=
       match o with
       | VGet => (s, ROk (VInt z))
       | VSet z' => (set_obj id (OValue z') s, ROk VNone)
+      | _ => (s, RErr E_BADCALL None)
+      end
+  | Some (ONs a) =>
+      match o with
+      | NSet k v => (set_obj id (ONs (d_set k v a)) s, ROk VNone)
+      | NGet k => match d_get k a with Some v => (s, ROk (VInt v)) | None => (s, RErr E_ATTR None) end
+      | NDel k => match d_get k a with Some _ => (set_obj id (ONs (d_del k a)) s, ROk VNone) | None => (s, RErr E_ATTR None) end
       | _ => (s, RErr E_BADCALL None)
       end
   | Some (OFactory made) =>
@@ -241,6 +261,13 @@ Definition apply_plain (x : obj) (o : op) : obj * resp :=
   | ODict d => match apply_dict d o with Some (d', r) => (ODict d', r) | None => (x, RErr E_BADCALL None) end
   | OValue z => match o with VGet => (x, ROk (VInt z)) | VSet z' => (OValue z', ROk VNone) | _ => (x, RErr E_BADCALL None) end
   | OFactory _ => (x, RErr E_BADCALL None)
+  | ONs a =>
+      match o with
+      | NSet k v => (ONs (d_set k v a), ROk VNone)
+      | NGet k => match d_get k a with Some v => (x, ROk (VInt v)) | None => (x, RErr E_ATTR None) end
+      | NDel k => match d_get k a with Some _ => (ONs (d_del k a), ROk VNone) | None => (x, RErr E_ATTR None) end
+      | _ => (x, RErr E_BADCALL None)
+      end
   end.
 
 Fixpoint direct (x : obj) (ops : list op) : obj * list resp :=
